@@ -530,7 +530,7 @@ Section CreateDamageRepair.
 
   Lemma x_pat_vol i c : vol_pattern basep (volpath i c) = true.
   Proof.
-    unfold vol_pattern, volpath. apply andb_true_iff. split; [apply andb_true_iff; split|].
+    unfold vol_pattern, volpath. apply andb_true_iff. split; [apply andb_true_iff; split; [apply andb_true_iff; split|]|].
     - apply Nat.leb_le. rewrite !app_length. cbn [length]. lia.
     - unfold starts_with.
       replace (basep ++ [46; 118; 111; 108]%N ++ dec2 (N.of_nat i) ++ [43%N] ++ dec2 (N.of_nat c) ++ EXT_PAR2)
@@ -544,12 +544,13 @@ Section CreateDamageRepair.
       rewrite app_length.
       match goal with |- context [skipn (?a + ?b - ?b)] => replace (a + b - b) with a by lia end.
       rewrite (skipn_app_len _ _ _ eq_refl). apply str_eqb_refl.
+    - apply no_slash_vol_path.
   Qed.
 
   Lemma x_pat_ix : vol_pattern basep ix = false.
   Proof.
     unfold vol_pattern, ix. rewrite !app_length. cbn [length].
-    match goal with |- Nat.leb ?a ?b && _ && _ = false =>
+    match goal with |- Nat.leb ?a ?b && _ && _ && _ = false =>
       assert (E : Nat.leb a b = false) by (apply Nat.leb_gt; lia); rewrite E end.
     reflexivity.
   Qed.
